@@ -101,8 +101,11 @@ void __cxa_pure_virtual(void) { __CPROVER_assert(0, "pure virtual called"); __CP
 static int vp_take_exception(void) { int p = __ir_exc_pending; __ir_exc_pending = 0; return p; }
 static int vp_exc_is(u8* ti) { return __ir_type_matches(__ir_exc_type, ti); }
 
-/* std exception classes: constructors only record; what() is not modelled unless a harness does */
-#define VP_EXC_CTOR(sym) void sym(u8* self, u8* msg) { (void)self; (void)msg; }
+/* std exception classes: constructors set a vptr whose what() slot (2) is vp_exc_what; message text is not modelled */
+u8* vp_exc_what(u8* self) { (void)self; return (u8*)"exception"; }
+static void* vp_exc_vt[6] = { 0, 0, 0, 0, (void*)vp_exc_what, 0 };   /* address point at +16: slots 0,1 dtors, 2 what */
+#define VP_EXC_SETVT(self) (*(void***)(self) = vp_exc_vt + 2)
+#define VP_EXC_CTOR(sym) void sym(u8* self, u8* msg) { (void)msg; VP_EXC_SETVT(self); }
 VP_EXC_CTOR(_ZNSt13runtime_errorC1EPKc) VP_EXC_CTOR(_ZNSt13runtime_errorC2EPKc)
 VP_EXC_CTOR(_ZNSt13runtime_errorC1ERKNSt7__cxx1112basic_stringIcSt11char_traitsIcESaIcEEE)
 VP_EXC_CTOR(_ZNSt13runtime_errorC2ERKNSt7__cxx1112basic_stringIcSt11char_traitsIcESaIcEEE)
@@ -115,15 +118,22 @@ void _ZNSt11range_errorD1Ev(u8* s) { (void)s; } void _ZNSt11logic_errorD1Ev(u8* 
 void _ZNSt16invalid_argumentD1Ev(u8* s) { (void)s; } void _ZNSt12length_errorD1Ev(u8* s) { (void)s; }
 void _ZNSt12out_of_rangeD1Ev(u8* s) { (void)s; } void _ZNSt12domain_errorD1Ev(u8* s) { (void)s; }
 void _ZNSt9exceptionD2Ev(u8* s) { (void)s; } void _ZNSt9exceptionD1Ev(u8* s) { (void)s; }
+u8* _ZNKSt13runtime_error4whatEv(u8* s) { return vp_exc_what(s); }
+u8* _ZNKSt11logic_error4whatEv(u8* s) { return vp_exc_what(s); }
+u8* _ZNKSt9exception4whatEv(u8* s) { return vp_exc_what(s); }
+#ifdef VP_DISPATCH_ru8p_u8p
+u8* __ir_indirect_ru8p_u8p(u8* fp, u8* a0) { if (fp == (u8*)vp_exc_what) return vp_exc_what(a0); __ir_bad_indirect(); return 0; }
+#endif
 /* __throw_* helpers of libstdc++ */
-#define VP_THROW(sym, ti) void sym(u8* m) { (void)m; __ir_exc_obj = 0; __ir_exc_type = (u8*)&ti; __ir_exc_pending = 1; }
+static void vp_throw_std(u8* ti) { u8* o = (u8*)malloc(16); __CPROVER_assume(o != 0); VP_EXC_SETVT(o); __ir_exc_obj = o; __ir_exc_type = ti; __ir_exc_pending = 1; }
+#define VP_THROW(sym, ti) void sym(u8* m) { (void)m; vp_throw_std(ti); }
 VP_THROW(_ZSt20__throw_length_errorPKc, _ZTISt12length_error)
 VP_THROW(_ZSt19__throw_logic_errorPKc, _ZTISt11logic_error)
 VP_THROW(_ZSt24__throw_invalid_argumentPKc, _ZTISt16invalid_argument)
 VP_THROW(_ZSt20__throw_out_of_rangePKc, _ZTISt12out_of_range)
-void _ZSt24__throw_out_of_range_fmtPKcz(u8* f, ...) { (void)f; __ir_exc_obj = 0; __ir_exc_type = (u8*)_ZTISt12out_of_range; __ir_exc_pending = 1; }
-void _ZSt17__throw_bad_allocv(void) { __ir_exc_obj = 0; __ir_exc_type = (u8*)_ZTISt9bad_alloc; __ir_exc_pending = 1; }
-void _ZSt25__throw_bad_function_callv(void) { __ir_exc_obj = 0; __ir_exc_type = (u8*)_ZTISt17bad_function_call; __ir_exc_pending = 1; }
+void _ZSt24__throw_out_of_range_fmtPKcz(u8* f, ...) { (void)f; vp_throw_std(_ZTISt12out_of_range); }
+void _ZSt17__throw_bad_allocv(void) { vp_throw_std(_ZTISt9bad_alloc); }
+void _ZSt25__throw_bad_function_callv(void) { vp_throw_std(_ZTISt17bad_function_call); }
 /* allocation: exact-size objects, failure out of scope */
 u8* _Znwm(u64 n) { u8* p = (u8*)malloc(n ? n : 1); __CPROVER_assume(p != 0); return p; }
 u8* _Znam(u64 n) { u8* p = (u8*)malloc(n ? n : 1); __CPROVER_assume(p != 0); return p; }
